@@ -164,6 +164,8 @@ class OutboundSim(PeerSim):
                 m[58] = f"n\u00f6te {k} \u20ac\u4e2d\U0001f600"
             if self.cfg.get("empty_vals") and k % 3 == 0:
                 m[58] = ""
+            if self.cfg.get("u8") is False and k % 5 == 4:
+                m[97] = "Y"  # PossResend: a NEW message (own number, journaled) that may repeat an earlier one
             if self.cfg.get("u8") is False and k % 5 == 2:
                 m[553] = "trader7"
                 m[554] = "s3cret-" + str(k)  # (the journal holds the bytes that were sent, whatever they are)
